@@ -130,7 +130,7 @@ def symptom_key(form: str, s: dict, ma=None, mb=None) -> str:
     sym = s["symptom"]
     if sym == "canon-differs":
         return diff_key(form, s, ma, mb)
-    if sym in ("print-crash", "reparse-crash", "clone-print-crash"):
+    if sym in ("print-crash", "reparse-crash", "clone-print-crash", "ir-unreadable-before-print"):
         return f"{form}:{sym}:{s.get('exc')}:{s.get('site')}"
     if sym == "reparse-fail":
         return f"{form}:reparse-fail:{s.get('site')}:{_msg_class(s.get('msg', ''))}"
@@ -214,8 +214,11 @@ def attribute_symptoms(m, ctx, first, generic=True, runner=None):
         remaining = [c for c in present if c not in active]
         progressed = False
         cur_sig = _sig(current)
-        for size in range(1, len(remaining) + 1):
-            for combo in itertools.combinations(remaining, size):
+        # single classes first, then all remaining ones together (two classes hiding behind ONE name-independent
+        # signature is the only case that needs the joint run)
+        combos = [(c,) for c in remaining] + ([tuple(remaining)] if len(remaining) > 1 else [])
+        for _size in (1,):
+            for combo in combos:
                 undo = _neutralise(m, objs, active + list(combo))
                 try:
                     nxt = run()
@@ -227,6 +230,23 @@ def attribute_symptoms(m, ctx, first, generic=True, runner=None):
                     gone = [s for s in current if _sig([s])[0] not in nxt_sig]
                     if not gone:  # signature changed only by gaining symptoms: not a cure, ignore
                         continue
+                    if len(combo) > 1:
+                        # joint neutralisation: keep only the classes that are NECESSARY for this change
+                        need = list(combo)
+                        for c in combo:
+                            trial = [x for x in need if x != c]
+                            if not trial:
+                                continue
+                            undo = _neutralise(m, objs, active + trial)
+                            try:
+                                t = run()
+                            finally:
+                                undo()
+                            extra += 1
+                            if _sig(t) == nxt_sig:
+                                need = trial
+                                nxt = t
+                        combo = tuple(need)
                     for s in gone:
                         out.append((s, list(combo)))
                     active += list(combo)
@@ -242,28 +262,95 @@ def attribute_symptoms(m, ctx, first, generic=True, runner=None):
     return out, present, extra
 
 
+
+# --------------------------------------------------------------------------- directed cases
+# Minimal explicit inputs for every mechanism found on the unchanged tree (also the witnesses of the known
+# findings) plus neighbouring cases that must hold.  vhints / bhints are given in walk order (results of each op,
+# then for each region each block followed by its arguments); None = leave as parsed.
+_M3 = ('"builtin.module"() ({\n  %0 = "test.op"() : () -> i32\n  %1 = "test.op"() : () -> i32\n'
+       '  %2 = "test.op"(%0, %1) : (i32, i32) -> i32\n}) : () -> ()')
+_R1 = ('"builtin.module"() ({\n  "test.op"() ({\n  ^bb0(%0: i32):\n    "test.termop"(%0) : (i32) -> ()\n  }) : () -> ()\n}) : () -> ()')
+_R3 = ('"builtin.module"() ({\n  "test.op"() ({\n  ^bb0(%0: i32):\n    "test.termop"(%0) [^bb1, ^bb2] : (i32) -> ()\n'
+       '  ^bb1:\n    "test.termop"() : () -> ()\n  ^bb2:\n    "test.termop"() : () -> ()\n  }) : () -> ()\n}) : () -> ()')
+DIRECTED = [
+    {"name": "near-collision-ok", "ir": _M3, "vhints": ["a", "a_1", "a_2"], "expect": []},
+    {"name": "punctuation-ok", "ir": _M3, "vhints": ["-", "a.b-c$", "$.-"], "expect": []},
+    {"name": "suffix-collision", "ir": _M3, "vhints": ["a", "a", "a_1_2"],
+     "expect": ["hint:suffix-retained:reparse-fail", "hint:suffix-retained:clone-print-differs"]},
+    {"name": "suffix-collision-then-use", "ir": _M3.replace("}) : () -> ()", '  "test.op"(%1, %2) : (i32, i32) -> ()\n}) : () -> ()'),
+     "vhints": ["a", "a", "a_1_2"],
+     "expect": ["hint:suffix-retained:reparse-fail", "hint:suffix-retained:clone-print-differs"]},
+    {"name": "suffix-reprint", "ir": _M3, "vhints": ["a_1_2", None, None],
+     "expect": ["hint:suffix-retained:reprint-differs", "hint:suffix-retained:clone-print-differs"]},
+    {"name": "non-ascii", "ir": _M3, "vhints": ["a\u00e9", None, "_\u4e2d1"], "expect": ["hint:non-ascii:reparse-fail"]},
+    {"name": "stripped-to-empty", "ir": _M3, "vhints": ["_0", None, None], "expect": ["hint:stripped-to-empty:clone-print-crash"]},
+    {"name": "block-default-collision", "ir": _R3, "bhints": [None, None, None, "bb1"],
+     "expect": ["hint:block-default-name:reparse-crash", "hint:block-hint:clone-print-differs"]},
+    {"name": "block-default-redeclared", "ir": _R3.replace("[^bb1, ^bb2]", ""), "bhints": [None, None, None, "bb1"],
+     "expect": ["hint:block-default-name:reparse-fail", "hint:block-hint:clone-print-differs"]},
+    {"name": "block-default-reprint", "ir": _R1, "bhints": [None, "bb7"],
+     "expect": ["hint:block-default-name:reprint-differs", "hint:block-hint:clone-print-differs"]},
+    {"name": "block-hint-clone", "ir": _R1, "bhints": [None, "entry"], "expect": ["hint:block-hint:clone-print-differs"]},
+    {"name": "block-hint-elided-label", "ir": _R1, "bhints": ["x", "x"],
+     "expect": ["hint:block-hint:reprint-differs", "hint:block-hint:clone-print-differs"]},
+    {"name": "attr-key-non-ascii", "ir": _M3, "attr_key": "\u00fc", "expect": ["non-ascii-attr-key:reparse-fail"]},
+    {"name": "attr-key-quoted-ok", "ir": _M3, "attr_key": "with \"quote\" and space", "expect": []},
+    {"name": "dense-float-hex",
+     "ir": '"builtin.module"() ({\n  %0 = "arith.constant"() <{value = dense<299792458.0> : tensor<8xf32>}> : () -> tensor<8xf32>\n}) : () -> ()',
+     "expect": []},  # was a known finding (hex float element re-read as integer) until fix 30b0661 landed
+    {"name": "default-prop-explicit-ok",
+     "ir": '"builtin.module"() ({\n  %0 = "arith.constant"() <{value = 1 : i32}> : () -> i32\n'
+           '  %1 = "arith.addi"(%0, %0) <{overflowFlags = #arith.overflow<none>}> : (i32, i32) -> i32\n'
+           '  %2 = "arith.addi"(%0, %0) {overflowFlags = #arith.overflow<nsw>} : (i32, i32) -> i32\n}) : () -> ()',
+     "expect": []},
+]
+
+
+def build_directed(spec):
+    from xdsl.dialects.builtin import IntegerAttr, i32
+    from xdsl.parser import Parser
+    from xv import corpus
+    from xv.c04_gen import named_objects
+    ctx = corpus.new_ctx()
+    m = Parser(ctx, spec["ir"], "<directed>").parse_module()
+    objs = named_objects(m)
+    vals = [o for o, isb in objs if not isb]
+    blks = [o for o, isb in objs if isb]
+    for o, h in list(zip(vals, spec.get("vhints", ()))) + list(zip(blks, spec.get("bhints", ()))):
+        if h is not None:
+            try:
+                o.name_hint = h
+            except ValueError:
+                pass  # not an accepted hint (any more): the case degenerates to the un-hinted module
+    if spec.get("attr_key") is not None:
+        list(m.walk())[1].attributes[spec["attr_key"]] = IntegerAttr(1, i32)
+    m.verify()
+    return ctx, m
+
 # --------------------------------------------------------------------------- plan
 def plan(tier, seed):
-    jobs = []
+    import os
+    scale = float(os.environ.get("XV_SCALE", "1"))  # self-tests with mutants only: a fraction of the workload
+    jobs = [{"kind": "directed"}]
     quick = tier == "quick"
     ncorp = 16 if quick else 24
     for i in range(ncorp):
-        jobs.append({"kind": "corpus", "i": i, "n": ncorp})
+        jobs.append({"kind": "corpus", "i": i, "n": ncorp, "stride": max(1, round(1 / scale))})
     ngen_shards = 16 if quick else 64
-    per = 220 if quick else 1600
+    per = max(10, int((220 if quick else 600) * scale))
     for i in range(ngen_shards):
         jobs.append({"kind": "gen", "seed": seed * 100003 + i, "count": per})
     npass = 8 if quick else 32
     for i in range(npass):
         jobs.append({"kind": "passes", "i": i, "n": npass, "seed": seed * 7919 + i, "per_module": 1 if quick else 4,
-                     "stride": 4 if quick else 1})
+                     "stride": max(1, round((4 if quick else 1) / scale))})
     # hash-seed sweep: the same cases re-printed under other PYTHONHASHSEEDs (text hashes are compared in finish)
     sweeps = [1, 2] if quick else [1, 2, 3, 12345]
     for h in sweeps:
         parts = 2 if quick else 6
         for i in range(parts):
             jobs.append({"kind": "hashsweep", "env": {"PYTHONHASHSEED": h}, "hashseed": h, "i": i, "n": parts,
-                         "corpus_stride": 6 if quick else 1,
+                         "corpus_stride": max(1, round((6 if quick else 1) / scale)),
                          "gen": [[seed * 100003 + g, 40 if quick else 150] for g in range(i, ngen_shards, parts)][: (4 if quick else 12)]})
     return jobs
 
@@ -332,7 +419,14 @@ def work(job):
             if origin == "generated" and classes:
                 bump("generated_ok_despite_risky_hint_class")
             return r
-        attributed, present, extra = attribute_symptoms(m, ctx, r["symptoms"])
+        if any(s["symptom"] in ("print-crash", "ir-unreadable-before-print") for s in r["symptoms"]):
+            # a printer exception may leave the IR half-edited (UnregisteredOp printing deletes and restores an
+            # attribute around the call): report as is, do not touch the module again
+            attributed, present, extra = [(s, None) for s in r["symptoms"]], [], 0
+            poisoned = True
+        else:
+            attributed, present, extra = attribute_symptoms(m, ctx, r["symptoms"])
+            poisoned = False
         bump("attribution_extra_roundtrips", extra)
         for s, classes_for in attributed:
             sym = s["symptom"]
@@ -352,10 +446,29 @@ def work(job):
         return r
 
     kind = job["kind"]
-    if kind in ("corpus", "corpus1"):
+    if kind == "directed":
+        for spec in DIRECTED:
+            if job.get("only") and spec["name"] != job["only"]:
+                continue
+            ctx, m = build_directed(spec)
+            before = {v["key"] for v in res["violations"]}
+            n_before = dict(seen_keys)
+            evaluate(f"directed:{spec['name']}", m, ctx, "directed", {"kind": "directed", "only": spec["name"]})
+            got = sorted(k for k in seen_keys if seen_keys[k] != n_before.get(k, 0))
+            bump("directed_cases")
+            if got != sorted(spec["expect"]):
+                # a directed case behaving differently from its recorded outcome is reported under its own key: either a
+                # neighbouring case that must hold broke, or a known mechanism changed shape (fixed / widened)
+                if set(got) - set(spec["expect"]):
+                    pass  # the unexpected keys themselves are already in the violation list
+                bump("directed_cases_with_changed_outcome")
+                sadd("directed_outcome_changed", f"{spec['name']}: expected {sorted(spec['expect'])} got {got}")
+            else:
+                bump("directed_cases_as_recorded")
+    elif kind in ("corpus", "corpus1"):
         chs = corpus.chunks()
         if kind == "corpus":
-            chs = corpus.shard(chs, job["i"], job["n"])
+            chs = corpus.shard(chs, job["i"], job["n"])[:: job.get("stride", 1)]
         else:
             chs = [c for c in chs if c[0] == job["file"] and c[1] == job["idx"]]
         for f, i, ch in chs:
@@ -471,7 +584,7 @@ def finish(agg, tier):
                                "witness": {"case": cid, "hashes": sorted(by_case[cid])}})
     swept = c.get("hashsweep_prints", 0)
     agg.sets.pop("texthash", None)
-    need = {"cases_corpus": 700, "cases_generated": 2000 if tier == "quick" else 50000, "cases_ok": 2500,
+    need = {"directed_cases": len(DIRECTED), "cases_corpus": 700, "cases_generated": 2000 if tier == "quick" else 25000, "cases_ok": 2500,
             "hinted_values_and_blocks": 5000, "symptom:reparse-fail": 1, "hashsweep_prints": 200,
             "cases_pass_output": 30}
     for k, v in need.items():
